@@ -48,7 +48,7 @@ func mi(m map[string]any, k string) int {
 	}
 	return 0
 }
-func ms_(m map[string]any, k string) string { s, _ := m[k].(string); return s }
+func ms_(m map[string]any, k string) string  { s, _ := m[k].(string); return s }
 func mlist(m map[string]any, k string) []any { l, _ := m[k].([]any); return l }
 
 // wireEncode is the harness's own encoder: abstract first message -> bytes, plus the matcher's
@@ -436,11 +436,23 @@ func init() {
 					continue
 				}
 				chunk := []int{0, 1, 3, 7}[k%4]
-				ver, alloc, pure := evalPrefix(m, wc, stream, n, v.Net, chunk)
+				eval := evalPrefix
+				if v.Proto == "quic" {
+					// the QUIC matcher gives its embedded listener 100 ms of wall-clock time: a "no" of a starved
+					// process is not a verdict; ask again (a datagram that must not match never says yes)
+					eval = func(m layer4.ConnMatcher, wc *wireCase, stream []byte, n int, netw string, chunk int) (string, uint64, bool) {
+						ver, alloc, pure := evalPrefix(m, wc, stream, n, netw, chunk)
+						for try := 0; try < 2 && ver == "N" && n == len(stream) && ms_(v.Msg, "kind") == "initial"; try++ {
+							ver, alloc, pure = evalPrefix(m, wc, stream, n, netw, chunk)
+						}
+						return ver, alloc, pure
+					}
+				}
+				ver, alloc, pure := eval(m, wc, stream, n, v.Net, chunk)
 				ver2, pure2 := ver, pure
 				if alloc <= 16<<20 {
 					var alloc2 uint64
-					ver2, alloc2, pure2 = evalPrefix(m, wc, stream, n, v.Net, 0)
+					ver2, alloc2, pure2 = eval(m, wc, stream, n, v.Net, 0)
 					if alloc2 < alloc {
 						// the counter is process-wide: the smaller of two evaluations excludes background noise
 						alloc = alloc2
